@@ -107,6 +107,8 @@ pub fn run_c05(ctx: &Ctx) {
         ctx.sample("cli-sign-raw", || serde_json::json!({"command": trunc(&cmd.shown(), 300)}));
         if crash(ctx, "C05", "cli-sign-raw", i, &shape, &cmd, &r) { return; }
         let replay = cmd.replay("cli-sign-raw", i, Build::Release);
+        // the spelling without 0x is not fixed by any property: it may be refused, but if it is signed the signature must be right
+        if i % 2 == 1 && r.refused() && r.stdout.is_empty() { ctx.eval(format!("{shape}:bare-spelling-refused")); return; }
         match refmodel::grammar::classify_signature(&r.line()) {
             refmodel::json::Class::Accept((rr, ss, odd)) if r.ok() => { ctx.eval(format!("{shape}:parity={}", odd as u8));
                 let pk = curve.mul_g(&key);
